@@ -101,7 +101,7 @@ def _slim_c12(t: dict) -> dict:
 
 def validate_sized(traces: List[dict], prop: str, budget: int = 1_000_000) -> Validation:
     """validate_traces in batches bounded by token volume (<= ~15 MB of JSON per JVM); the batches are independent
-    (one TLC process each, linear in the trace), so up to four run side by side."""
+    (one TLC process each, linear in the trace), so up to six run side by side."""
     from concurrent.futures import ThreadPoolExecutor
 
     from .par import procs
@@ -125,7 +125,7 @@ def validate_sized(traces: List[dict], prop: str, budget: int = 1_000_000) -> Va
     val = Validation()
     if not batches:
         return val
-    with ThreadPoolExecutor(max_workers=max(1, min(4, procs(len(batches))))) as ex:
+    with ThreadPoolExecutor(max_workers=max(1, min(6, procs(len(batches))))) as ex:
         parts = list(ex.map(one, batches))      # order kept: rejected verdicts stay in input order
     for v in parts:
         val.accepted += v.accepted
